@@ -28,6 +28,22 @@ def _chain(tb: TermBuilder, p: Poly) -> Optional[List[str]]:
 
 
 def run(ck: Check, repo: Repo) -> None:
+    # a clone must own its matrix: sigma_inv is updated in place by get_action, so a clone that shares the tensor folds its parent's and siblings'
+    # decisions into it.  That is the C01.3 ownership rule on copy_attributes; its obligations are taken over (nested Check first: it resets pattern state)
+    from dataclasses import replace
+    from . import c01
+    sub = Check("C01", ck.tier, ck.repo_root)
+    sub.known = []
+    c01.run(sub, repo)
+    ck.rule("C19.5", "clones own their confidence matrix: copy_attributes stores tensor attributes on the clone as deep copies on every path "
+                     "(obligations of C01.3, shared with the C01 check); sigma_inv is updated in place, so a shared tensor would mix the decisions of parent and clones")
+    taken = [replace(o, rule="C19.5") for o in sub.obs if o.rule == "C01.3"]
+    if len(taken) < 10:
+        raise AnalysisError(f"C19.5: only {len(taken)} obligations taken over from C01.3")
+    for o in taken:
+        if o.status == "violated" and ck._known_entry(o) is not None:
+            o.status = "known"
+    ck.obs.extend(taken)
     ck.not_decided += ["positive definiteness and numerical drift of the maintained inverse (floating point)",
                        "that the gradient features equal the true gradient of the output layer (autograd)"]
     ck.trusted += ["`@` is matrix multiplication; v.T of a column vector is the row vector"]
@@ -99,6 +115,9 @@ def _get_action(ck: Check, repo: Repo, fn: Fn, cname: str) -> Optional[str]:
     if rets and vdef:
         ra = dotted(rets[0].ast.value)
         ok = isinstance(vdef[0].ast.value, ast.Call) and g_name is not None and f"{g_name}[{ra}]" in ast.unparse(vdef[0].ast.value) and cfg.dominates(vdef[0], u)
+        # ... and it is the same *value*: no re-binding of that name between the feature lookup and the return
+        same = {d.id for d in cfg.defs_reaching(vdef[0], ra)} == {d.id for d in cfg.defs_reaching(rets[0], ra)} if ra else False
+        ok = ok and same
         ck.ob("C19.1", fn, vdef[0].ast, ok, f"{cname}: the matrix is updated with the feature of the action that is returned")
         ck.ob("C19.1", fn, vdef[0].ast, "unsqueeze(-1)" in ast.unparse(vdef[0].ast.value), f"{cname}: v is a column vector (so v v^T is the outer product)")
     # ---- C19.4 features and bonus
@@ -249,6 +268,7 @@ _UCB = "agilerl/algorithms/neural_ucb_bandit.py"
 _TS = "agilerl/algorithms/neural_ts_bandit.py"
 _MF = "agilerl/hpo/mutation.py"
 VARIANTS = [
+    ("ucb-returned-arm-rechosen-after-update", _UCB, "        return action\n\n    def learn(self, experiences", "        if action_mask is not None:\n            action = np.argmax(np.ma.array(action_values, mask=1 - action_mask))\n        return action\n\n    def learn(self, experiences", "fire", "C19.1"),
     ("ucb-plus", _UCB, "        self.sigma_inv -= (self.sigma_inv @ v @ v.T @ self.sigma_inv) / (", "        self.sigma_inv += (self.sigma_inv @ v @ v.T @ self.sigma_inv) / (", "fire", "C19.1"),
     ("ucb-no-one", _UCB, "            1 + v.T @ self.sigma_inv @ v\n", "            v.T @ self.sigma_inv @ v\n", "fire", "C19.1"),
     ("ucb-outer-order", _UCB, "(self.sigma_inv @ v @ v.T @ self.sigma_inv) / (", "(self.sigma_inv @ v.T @ v @ self.sigma_inv) / (", "fire", "C19.1"),
